@@ -298,18 +298,23 @@ def rawValue (T : Table) (c : Ctx) (n : Node) (p : Nat) : Val × Bool :=
   | .inherit => (match c.par with | some f => f p | none => T.initVal p, false)
   | .value v => (v, true)
 
+/-- the text-decoration and `page` special cases of `Get`: the replacement value, if one applies -/
+def specialPure (T : Table) (c : Ctx) (n : Node) (p : Nat) (value : Val) : Option Val :=
+  match c.par with
+  | some f =>
+    if T.tdKind p ≠ 0 then some (textDecoration (T.tdKind p) value (f p) (declOf n p).isSome)
+    else if p = T.pPage ∧ value = .kw "auto" then some (f T.pPage)
+    else none
+  | none =>
+    if p = T.pPage ∧ value = .kw "auto" then some (.kw "") else none
+
 /-- The value handed to the computer function, and whether the computer function runs at all.
     `rawValue` plus the text-decoration and `page` special cases of `Get`. -/
 def preValue (T : Table) (c : Ctx) (n : Node) (p : Nat) : Val × Bool :=
   let r := rawValue T c n p
-  match c.par with
-  | some f =>
-    if T.tdKind p ≠ 0 then (textDecoration (T.tdKind p) r.1 (f p) (declOf n p).isSome, true)
-    else if p = T.pPage ∧ r.1 = .kw "auto" then (f T.pPage, true)
-    else r
-  | none =>
-    if p = T.pPage ∧ r.1 = .kw "auto" then (.kw "", true)
-    else r
+  match specialPure T c n p r.1 with
+  | some v => (v, true)
+  | none => r
 
 /-- the parent's font size as `fontSize` reads it (placeholder when it is not read) -/
 def pfsArg (T : Table) (c : Ctx) (v : Val) : Val :=
@@ -432,7 +437,10 @@ def anonGet (T : Table) (pg : State → Nat → State × Val) (key : List Node) 
   match st key p with
   | some v => (st, v)
   | none =>
-    if T.inherited p ∨ p = T.pPage then
+    -- newAnonymousStyle pre-sets these entries (`State.fresh`), so this branch is not reachable from
+    -- fresh styles; it only makes `anonGet` meaningful on arbitrary states
+    if T.anonSeed p then (st.set key p (.dim 0 uNone), .dim 0 uNone)
+    else if T.inherited p ∨ p = T.pPage then
       let r := pg st p
       (r.1.set key p r.2, r.2)
     else if T.tdKind p ≠ 0 then
@@ -451,26 +459,30 @@ def cascadeValue (T : Table) (g : Getters) (n : Node) (p : Nat) (st : State) : S
     | none => (st, T.initVal p, true)          -- unreachable: effDecl never answers inherit on the root
   | .value v => (st, v, false)
 
+/-- the text-decoration and `page` special cases of `Get`: the state after the parent's `Get` and
+    the replacement value, if a special case applies -/
+def specialGet (T : Table) (g : Getters) (n : Node) (p : Nat) (value : Val) (st : State) :
+    Option (State × Val) :=
+  match g.par with
+  | some pg =>
+    if T.tdKind p ≠ 0 then
+      let r := pg st p
+      some (r.1, textDecoration (T.tdKind p) value r.2 (declOf n p).isSome)
+    else if p = T.pPage ∧ value = .kw "auto" then some (pg st T.pPage)
+    else none
+  | none =>
+    if p = T.pPage ∧ value = .kw "auto" then some (st, .kw "") else none
+
 /-- `Get` up to (not including) the computer function: state, value, and whether the computer
     function must still run (`false`: the value was found in / saved to the cache) -/
 def getPre (T : Table) (g : Getters) (key : List Node) (n : Node) (p : Nat) (st : State) :
     State × Val × Bool :=
   let cv := cascadeValue T g n p st
-  let st1 := if cv.2.2 then cv.1.set key p cv.2.1 else cv.1
-  let value := cv.2.1
-  let r : State × Val := match g.par with
-    | some pg =>
-      if T.tdKind p ≠ 0 then
-        let pr := pg st1 p
-        ((pr.1.del key p), textDecoration (T.tdKind p) value pr.2 (declOf n p).isSome)
-      else if p = T.pPage ∧ value = .kw "auto" then
-        let pr := pg st1 T.pPage
-        ((pr.1.del key p), pr.2)
-      else (st1, value)
-    | none =>
-      if p = T.pPage ∧ value = .kw "auto" then ((st1.del key p), .kw "")
-      else (st1, value)
-  match r.1 key p with
+  let st1 := if cv.2.2 then cv.1.set key p cv.2.1 else cv.1      -- `if save { c.Set(key, value) }`
+  let r : State × Val := match specialGet T g n p cv.2.1 st1 with
+    | some s => (s.1.del key p, s.2)                              -- `c.delete(key)`
+    | none => (st1, cv.2.1)
+  match r.1 key p with                                            -- "check the cache again"
   | some v => (r.1, v, false)
   | none => (r.1, r.2, true)
 
